@@ -199,13 +199,19 @@ class Ctx:
             args = coqproject_args(d)
             rc, aout = sh(["coqc"] + args + [af], cwd=self.build, timeout=600)
             cur = None
-            for ln in aout.splitlines():
+            alines = aout.splitlines()
+            for li, ln in enumerate(alines):
                 if ln.startswith("@@THM "):
                     cur = ln[6:].strip()
                     self.axioms[cur] = []
                 elif cur is not None:
                     m = re.match(r"^([A-Za-z_][\w.']*)\s*:", ln)
-                    if m and not ln.startswith("Closed under"):
+                    if not m:
+                        # long names are printed alone on a line, the type follows on the next line as "  : ..."
+                        m2 = re.match(r"^([A-Za-z_][\w.']*)\s*$", ln)
+                        if m2 and li + 1 < len(alines) and re.match(r"^\s+:", alines[li + 1]):
+                            m = m2
+                    if m and not ln.startswith("Closed under") and m.group(1) not in ("Axioms", "Fetching"):
                         self.axioms[cur].append(m.group(1))
             if rc != 0:
                 self.log("Print Assumptions run failed:\n" + aout[-1500:])
